@@ -156,6 +156,7 @@ int main(int argc, char** argv) {
 			kv("r", 0); baObs();
 		} else if (c == "ar") {
 			if (op == "new") { new (&g_sa) StaticArrayT<int, VC_CAP>{}; new (&g_da) DynamicArrayT<int, VC_CAP>{}; new (&g_db) DynamicArrayT<int, VC_CAP>{}; }
+			else if (op == "snew") { new (&g_sa) StaticArrayT<int, VC_CAP>{static_cast<int>(a)}; }		// the filler constructor
 			else if (op == "sset") g_sa[a] = static_cast<int>(b);
 			else if (op == "sfill") g_sa.fill(static_cast<int>(a));
 			else if (op == "sclear") g_sa.clear();
